@@ -387,6 +387,8 @@ impl BudgetEnforcer {
             Event::DocumentStart(_explicit) => {
                 if self.policy == EnforcingPolicy::PerDocument {
                     self.report.reset();
+                    // Anchors are per document: the set of defined ids starts empty as well.
+                    self.defined_anchors.clear();
                 } else {
                     self.report.documents += 1;
                     if self.report.documents > self.budget.max_documents {
